@@ -83,6 +83,21 @@ class _Proxy:
         return getattr(self._res, n)
 
 
+def _tree_diff(before_tree, root, limit=5000):
+    """Unified diff (context 1) of every changed text file, for witnesses."""
+    import difflib
+    out = []
+    now = treesnap.snap(root)
+    for p in sorted(set(before_tree) | set(now)):
+        a, b = before_tree.get(p), now.get(p)
+        if a == b:
+            continue
+        ta = a[1].decode("utf-8", "replace") if a and a[0] == "f" else ""
+        tb = b[1].decode("utf-8", "replace") if b and b[0] == "f" else ""
+        out.append("".join(difflib.unified_diff(ta.splitlines(1), tb.splitlines(1), "a/" + p, "b/" + p, n=1)))
+    return "".join(out)[:limit]
+
+
 def _first_diff(before, after):
     for (rc0, out0, err0), (rc1, out1, err1) in zip(before, after):
         l0, l1 = out0.splitlines(), out1.splitlines()
@@ -154,7 +169,8 @@ def judge(case, request, res, key_prefix, features="", detail=None, coarse=False
     errs = compile_errors(case.root)
     if errs:
         res.violation(f"{key_prefix}|syntax-error|{features}", f"result does not compile: {errs[0][1]}",
-                      file=errs[0][0], new_text=pyrun.read_project(case.root).get(errs[0][0], "")[:3000])
+                      file=errs[0][0], new_text=pyrun.read_project(case.root).get(errs[0][0], "")[:3000],
+                      diff=_tree_diff(before_tree, case.root))
         out = "violation"
     else:
         after = pyrun.behaviour(case.root)
@@ -171,12 +187,14 @@ def judge(case, request, res, key_prefix, features="", detail=None, coarse=False
                     fm = "behaviour"   # the cause names the mechanism; the symptom is secondary
             res.violation(f"{key_prefix}|{fm}|{features}", f"behaviour changed ({fm})", changed_files=changed,
                           new_text={p: pyrun.read_project(case.root).get(p, "<gone>")[:3000] for p in changed[:2]},
-                          after=[a[2] or a[1][-300:] for a in after], first_diff=_first_diff(case.baseline, after))
+                          after=[a[2] or a[1][-300:] for a in after], first_diff=_first_diff(case.baseline, after),
+                          diff=_tree_diff(before_tree, case.root))
             out = "violation"
         else:
             extra = post_check(pyrun.read_project(case.root)) if post_check else None
             if extra:
-                res.violation(f"{key_prefix}|{extra}|{features}", f"behaviour preserved but: {extra}")
+                res.violation(f"{key_prefix}|{extra}|{features}", f"behaviour preserved but: {extra}",
+                              diff=_tree_diff(before_tree, case.root))
                 out = "violation"
             else:
                 res.outcome("preserved")
